@@ -543,7 +543,7 @@ func r7ivAes(c *core.Ctx, R string) {
 				a, b, z, d := header(ev.Mem, m, 8)
 				okC, okB, okZ = okC && a, okB && b, okZ && z
 				desc += d
-				tail, has := ev.Mem.Tails[m.Path]
+				tail, has := ev.Mem.Tail(m.Path)
 				if !has || tail.From != 8 || tail.Src != "p4" || tail.SrcLo != 0 || m.LenName != "(8+len(p4))" {
 					okTail = false
 					desc += fmt.Sprintf(" message part: %+v of a block of length %q;", tail, m.LenName)
@@ -720,7 +720,7 @@ func r7dispatchX(c *core.Ctx, R string) {
 		name := shortName(ev.Callee)
 		name = name[strings.LastIndexByte(name, '.')+1:]
 		inPlaceSeen[name] = true
-		t, has := o.Mem.Tails["p5"]
+		t, has := o.Mem.Tail("p5")
 		out := ""
 		if ev.Ret.K == core.ATuple && len(ev.Ret.Elems) == 2 {
 			out = ev.Ret.Elems[0].Path
